@@ -24,7 +24,7 @@ RULE = ("seeded histories of 1-7 operations (write via path/stream, overwrite, u
 REAL = ["bec2format.bf3file (writer, reader, text envelope)", "bec2format.bytes_reader",
         "register_crypto_plugin.AES128Proxy", "pyaes"]
 STUBS = ["medium: SimFS/SimTextWriter/SimTextReader (volatile until close/flush, CRLF translation)"]
-PROBES = ["read-after-overwrite-shorter", "read-after-failed-write-retry", "crlf-on-medium",
+PROBES = ["rewrite-of-read-back-object", "unchecked-read-with-other-key", "read-after-overwrite-shorter", "read-after-failed-write-retry", "crlf-on-medium",
           "payload-multiple-of-16", "payload-trailing-zero", "writer-rejected-oversize",
           "read-after-restart"]
 ASSUMPTIONS = ["input breadth is that of the seeded generator (sampling)",
@@ -60,9 +60,18 @@ def gen(st, tier):
             written.append(name)
         elif r < 0.5:
             ops.append(["restart"])
+        elif r < 0.62 and written:
+            # the object returned by a read is written again, possibly under another key
+            src = w.choice(written)
+            ops.append(["read", src, w.choice(["path", "stream"]), False, w.randrange(len(keys))])
+            dst = w.choice(names)
+            ops.append(["rewrite", src, dst, w.randrange(len(keys)), w.choice(["path", "stream"])])
+            ops.append(["read", dst, w.choice(["path", "stream"]), True, None])
+            written.append(dst)
         else:
-            ops.append(["read", w.choice(written), w.choice(["path", "stream"]),
-                        w.random() < 0.7])
+            check = w.random() < 0.7
+            ops.append(["read", w.choice(written), w.choice(["path", "stream"]), check,
+                        None if check or w.random() < 0.5 else w.randrange(len(keys))])
     if written and not any(o[0] == "read" for o in ops):
         ops.append(["read", written[-1], "path", True])
     return {"objs": objs, "keys": keys, "ops": ops}
@@ -75,6 +84,7 @@ def run(case):
     env.bf3file.open = fs.open
     acked = {}  # name -> (obj index, key index) | None
     hist = {}   # name -> info about history for probes
+    lastread = {}  # name -> (object returned by the last read, obj index)
     try:
         for op in case["ops"]:
             if op[0] == "restart":
@@ -134,8 +144,36 @@ def run(case):
                     out.probes["crlf-on-medium"] += 1
                 out.ev("write", name, via, "ok", len(fs.files[name]))
                 continue
+            if op[0] == "rewrite":
+                _, src, name, ki, via = op
+                if src not in lastread:
+                    out.ev("rewrite-skipped")
+                    continue
+                obj, oi = lastread[src]
+                key = bytes.fromhex(case["keys"][ki])
+                fs.plan[name] = {}
+                try:
+                    if via == "path":
+                        obj.write_file(name, key)
+                    else:
+                        h = fs.open(name, "w")
+                        try:
+                            obj.write_file(h, key)
+                        finally:
+                            h.close()
+                except Exception as e:
+                    out.fail("C01.rewrite-raises", exc_site(e), "writing a read-back object again raised %s: %s"
+                             % (type(e).__name__, e))
+                    acked[name] = None
+                    continue
+                acked[name] = (oi, ki)
+                hist[name] = {"rewritten": True}
+                out.probes["rewrite-of-read-back-object"] += 1
+                out.ev("rewrite", src, name, ki)
+                continue
             # read
-            _, name, via, check = op
+            _, name, via, check = op[:4]
+            rk = op[4] if len(op) > 4 else None
             st = acked.get(name)
             if st is None:
                 out.ev("read", name, via, "skipped-unacked")
@@ -143,6 +181,11 @@ def run(case):
             oi, ki = st
             spec = case["objs"][oi]
             key = bytes.fromhex(case["keys"][ki])
+            if rk is not None and not check:
+                # MAC checking off: plain components read the same under any key
+                key = bytes.fromhex(case["keys"][rk])
+                if rk != ki:
+                    out.probes["unchecked-read-with-other-key"] += 1
             model = G.model_of(spec)
             try:
                 if via == "path":
@@ -162,6 +205,7 @@ def run(case):
                 out.ev("read", name, via, "raised", type(e).__name__)
                 continue
             diff = G.compare_bf3(model, got)
+            lastread[name] = (got, oi)
             out.nontrivial = True
             hh = hist.get(name, {})
             if hh.get("shorter"):
